@@ -211,6 +211,7 @@ type evRec struct {
 
 type txRec struct {
 	S      txScript `json:"s"`
+	Dry    bool     `json:"dry,omitempty"` // ExecuteTransactionRequest.DryRun: runs over the committed state, leaves no trace
 	Result int      `json:"r"`
 	Events []evRec  `json:"ev"`
 	Obs    []obsRec `json:"obs"`
@@ -351,6 +352,18 @@ func (n *node) block(height int, txs []txScript, dry bool, expected string) step
 		panic(err)
 	}
 	cons := &labi.Consensus{}
+	// a dry run of a transaction (engine: transaction pool admission) is interleaved now and then
+	expanded := []txScript{}
+	dryFlags := []bool{}
+	for i := range txs {
+		if (height*7+i)%5 == 0 {
+			expanded = append(expanded, txs[i])
+			dryFlags = append(dryFlags, true)
+		}
+		expanded = append(expanded, txs[i])
+		dryFlags = append(dryFlags, false)
+	}
+	txs = expanded
 	for i := range txs {
 		s := txs[i]
 		n.m.cur = &s
@@ -361,9 +374,9 @@ func (n *node) block(height int, txs []txScript, dry bool, expected string) step
 		}
 		t := &blockchain.Transaction{Module: "m", Command: command, Params: []byte{byte(i)}, Nonce: uint64(height*100 + i), SenderPublicKey: make([]byte, 32), Signatures: []codec.Hex{make([]byte, 64)}}
 		t.Init()
-		rec := txRec{S: s, Events: []evRec{}}
+		rec := txRec{S: s, Dry: dryFlags[i], Events: []evRec{}}
 		rec.Panic = guard(func() {
-			resp, err := n.h.ExecuteTransaction(&labi.ExecuteTransactionRequest{ContextID: r.ContextID, Transaction: t, Header: header, Consensus: cons})
+			resp, err := n.h.ExecuteTransaction(&labi.ExecuteTransactionRequest{ContextID: r.ContextID, Transaction: t, Header: header, Consensus: cons, DryRun: dryFlags[i]})
 			if err != nil {
 				panic(err)
 			}
